@@ -53,12 +53,70 @@ class Ctx:
         # A function that calls a helper the reference tree does not have (and that could not be inlined, sa/canon.py S13)
         # keeps part of its behaviour in code no rule was confirmed on: a mismatch found there is reported as
         # inconclusive, not as a violation.
+        d = self._signature_drift(site)
+        if d:
+            self._add(UNK, rule, site, 'not decided (the parameter list of %s differs from the one the rules were confirmed on; '
+                      'arguments can no longer be bound by role): %s' % (', '.join(sorted(d)), str(construct)[:160]), facts=facts, node=node)
+            return
         h = self._uninlined_helpers(site)
         if h:
             self._add(UNK, rule, site, 'not decided (%s now delegates to the new helper %s, which the analysis could not inline): %s'
                       % (site.partition('::')[2] or site, ', '.join(sorted(h)), str(construct)[:160]), facts=facts, node=node)
             return
         self._add(BAD, rule, site, msg, construct=construct, facts=facts, node=node)
+
+    def _signature_drift(self, site):
+        """Functions of the reference tree whose ARITY changed and that are `site` itself, called by it, or callers of it."""
+        cache = self.__dict__.setdefault('_drift_cache', {})
+        if '__all__' not in cache:
+            drift = set()
+            try:
+                from .canon import refshapes
+                import ast as _ast
+                ref = refshapes()
+                for rel, m in self.repo.modules.items():
+                    for ln, fn in m.funcs.items():
+                        r = ref.get(rel + '::' + ln)
+                        if r and 'params' in r and isinstance(fn, _ast.FunctionDef) and len(fn.args.args) != len(r['params']):
+                            drift.add(rel + '::' + ln)
+            except Exception:
+                drift = set()
+            cache['__all__'] = drift
+        drift = cache['__all__']
+        if not drift:
+            return set()
+        if site in cache:
+            return cache[site]
+        out = set()
+        try:
+            import ast as _ast
+            rel, _, lname = site.partition('::')
+            mod = self.repo.modules.get(rel)
+            if site in drift:
+                out.add(lname)
+            dn = {q.rpartition('::')[2].rpartition('.')[2]: q for q in drift}
+            if mod is not None and lname in mod.funcs:
+                for c in _ast.walk(mod.funcs[lname]):
+                    if isinstance(c, _ast.Call):
+                        nm = c.func.attr if isinstance(c.func, _ast.Attribute) else (c.func.id if isinstance(c.func, _ast.Name) else None)
+                        if nm in dn:
+                            out.add(nm)
+            # callers of `site` among the drifted functions
+            me = lname.rpartition('.')[2]
+            for q in drift:
+                r2, _, l2 = q.partition('::')
+                f2 = self.repo.modules[r2].funcs.get(l2)
+                if f2 is None:
+                    continue
+                for c in _ast.walk(f2):
+                    if isinstance(c, _ast.Call):
+                        nm = c.func.attr if isinstance(c.func, _ast.Attribute) else (c.func.id if isinstance(c.func, _ast.Name) else None)
+                        if nm == me:
+                            out.add(l2)
+        except Exception:
+            out = set()
+        cache[site] = out
+        return out
 
     def _uninlined_helpers(self, site):
         cache = self.__dict__.setdefault('_helper_cache', {})
